@@ -193,6 +193,8 @@ def judge_once(ctx, cases, mode, chunk=6000, count=True):
             bd = b["loc"]["bound"]
             bd = [bd] if isinstance(bd, str) else bd
             locus = "%s/%s/%s/%s/%s/%s" % (b["loc"]["frag"], b["loc"]["pos"], b["loc"]["cont"], b["loc"]["pre"], ",".join(bd), rc)
+            if b["kind"] == "as-implemented":     # exact match with the second reading of a known defect: short, precise locus
+                locus = "%s/%s/%s" % (b["loc"]["frag"], b["loc"]["pos"], rc)
             recs.append({"api": API.get(b["ev"], b["ev"]), "kind": b["kind"], "locus": locus,
                          "witness": {"path": case.get("ps"), "data": compact(case["data"])},
                          "case": strip_case(case), "detail": {"as": b["as"], "m": b.get("m") or None}})
